@@ -202,15 +202,16 @@ class _PrefixPolicy:
     return c
 
 
-def explore(cfg, *, bound=2, max_runs=2000, rnd=None):
+def explore(cfg, *, bound=2, max_runs=2000, rnd=None, run=None):
   """Systematic depth-first exploration of the real code's schedules with at most `bound`
-  preemptions (a preemption = switching away from a thread that could have continued)."""
+  preemptions (a preemption = switching away from a thread that could have continued).
+  `run(policy)` executes one schedule (default: the queue configuration `cfg`)."""
   stack = [([], 0)]
   runs = 0
   while stack and runs < max_runs:
     prefix, used = stack.pop()
     pol = _PrefixPolicy(prefix)
-    o = qreplay.run_config(cfg, pol)
+    o = run(pol) if run is not None else qreplay.run_config(cfg, pol)
     runs += 1
     yield o, [c for _, c, _ in pol.choices]
     # count preemptions along the executed run up to each point
